@@ -2,10 +2,10 @@
 (* Trace validation for the routing lab (C10). *)
 EXTENDS Routing, StatusCodec, TraceKit
 Fresh(stim) == [stim |-> stim, handled |-> <<>>, sent |-> FALSE, resp |-> FALSE]
-Keys == {"runs", "dispatching", "unimplemented", "empty_registry", "uri_rejected"}
+Keys == {"runs", "open_body", "open_unanswered", "dispatching", "unimplemented", "empty_registry", "uri_rejected"}
 Init == InitK(Fresh([class |-> "none"]), Keys)
 RegOf(stim) == { stim.reg[i] : i \in 1..Len(stim.reg) }
-Reset == ResetK(Fresh(E.stim)) /\ Count({"runs"} \cup (IF E.stim.reg = <<>> THEN {"empty_registry"} ELSE {}))
+Reset == ResetK(Fresh(E.stim)) /\ Count({"runs"} \cup (IF E.stim.reg = <<>> THEN {"empty_registry"} ELSE {}) \cup (IF "body" \in DOMAIN E.stim THEN {"open_body"} ELSE {}))
 Sent == /\ Live("sent")
         /\ JudgeK(<< <<"HarnessOK", E.uri_ok => E.path_seen = PathComponent(s.stim.path)>> >>, [s EXCEPT !.sent = TRUE, !.resp = ~E.uri_ok])
         /\ Count(IF E.uri_ok THEN {} ELSE {"uri_rejected"})
@@ -23,8 +23,13 @@ Resp == /\ Live("resp")
                         <<"C10.OtherPathsAreUnimplemented", ~disp => (code = 12 /\ E.status = 200 /\ E.body = <<>>)>> >>,
                      [s EXCEPT !.resp = TRUE])
            /\ Count(IF disp THEN {"dispatching"} ELSE {"unimplemented"})
+\* a request whose body stays open (stim.body = "open") got no response: legitimate only where a handler is waiting for the rest of it
+NoAnswer == /\ Live("no_answer")
+            /\ JudgeK(<< <<"C10.OtherPathsAreUnimplemented", Target(s.stim.path, RegOf(s.stim)) # {}>>,
+                         <<"HarnessOK", "body" \in DOMAIN s.stim /\ s.stim.body = "open">> >>, [s EXCEPT !.resp = TRUE])
+            /\ Count({"open_unanswered"})
 End == EndK(<< <<"RunComplete", E.outcome = "ok" => (s.sent /\ s.resp)>> >>)
-Known == {"reset", "sent", "handled", "resp", "end"}
-Next == Reset \/ Sent \/ Handled \/ Resp \/ End \/ UnknownK(Known) \/ DeadSkipK
+Known == {"reset", "sent", "handled", "resp", "no_answer", "end"}
+Next == Reset \/ Sent \/ Handled \/ Resp \/ NoAnswer \/ End \/ UnknownK(Known) \/ DeadSkipK
 Spec == Init /\ [][Next]_kvars
 =============================================================================
